@@ -1,6 +1,7 @@
 pub mod conf;
 pub mod grid;
 pub mod layout;
+pub mod macros;
 pub mod mutate;
 pub mod prog;
 pub mod source;
